@@ -163,20 +163,22 @@ class TimerWorld:
                 raise Mismatch('answer', 'a request is sent in reaction to TEMPORARY_FAILURE where the specification waits for the timer')
         elif name == 'Noise':
             sa = self.sa
-            self.noise_n = getattr(self, 'noise_n', 0) + 1
-            form = self.noise_n % 3
             peer_flag = not sa.is_initiator
-            if form == 0:      # a late copy of / a forged cleartext IKE_SA_INIT response carrying this IKE_SA's SPIs
-                data = W.enc_message({'spi_i': sa.spi_i, 'spi_r': sa.spi_r, 'xchg': 34, 'response': True, 'initiator': peer_flag, 'mid': 0}, [])
-            elif form == 1:    # a cleartext INFORMATIONAL request with the expected Message ID
-                data = W.enc_message({'spi_i': sa.spi_i, 'spi_r': sa.spi_r, 'xchg': 37, 'response': False, 'initiator': peer_flag, 'mid': sa.peer_msg_id}, [])
-            else:              # an INFORMATIONAL request sealed under keys that are not the peer's
-                data = W.enc_message({'spi_i': sa.spi_i, 'spi_r': sa.spi_r, 'xchg': 37, 'response': False, 'initiator': peer_flag, 'mid': sa.peer_msg_id}, [],
-                                     sk={'ke': b'\x5a' * len(sa.my_crypto.sk_e), 'ka': b'\xa5' * len(sa.my_crypto.sk_a), 'integ': _integ_id(sa.my_crypto),
-                                         'iv': b'\x21' * 16, 'inner': []})
-            out = w.dispatch('A', data, 'B')
-            if out is not None:
-                raise Mismatch('noise', 'an unauthenticated datagram is answered')
+            hdr = {'spi_i': sa.spi_i, 'spi_r': sa.spi_r, 'initiator': peer_flag}
+            forms = [
+                # a late copy of / a forged cleartext IKE_SA_INIT response carrying this IKE_SA's SPIs
+                W.enc_message(dict(hdr, xchg=34, response=True, mid=0), []),
+                # a cleartext INFORMATIONAL request with the expected Message ID
+                W.enc_message(dict(hdr, xchg=37, response=False, mid=sa.peer_msg_id), []),
+                # an INFORMATIONAL request sealed under keys that are not the peer's
+                W.enc_message(dict(hdr, xchg=37, response=False, mid=sa.peer_msg_id), [],
+                              sk={'ke': b'\x5a' * len(sa.my_crypto.sk_e), 'ka': b'\xa5' * len(sa.my_crypto.sk_a), 'integ': _integ_id(sa.my_crypto), 'iv': b'\x21' * 16, 'inner': []}),
+                # a cleartext IKE_SA_INIT-typed datagram with the wrong role flag / a bare header of the last exchange type
+                W.enc_message(dict(hdr, initiator=not peer_flag, xchg=34, response=True, mid=0), []),
+            ]
+            for data in forms:
+                if w.dispatch('A', data, 'B') is not None:
+                    raise Mismatch('noise', 'an unauthenticated datagram is answered')
         elif name == 'PeerProbe':
             b = w.sas('B')[0]
             keep = b.start_dpd_at
